@@ -8,24 +8,24 @@
  * heap copy):
  *
  *   hmac_*_final case   for every message length m in {0,1,B-1,B,B+1,2B}: MAC computed with one
- *                       update, with m one-byte updates (m <= B+1), and with empty/B-1/empty/rest updates must
- *                       equal the reference; afterwards the keyed pad and the sensitive fields of
- *                       the hash context are zero.
+ *                       update, with m one-byte updates (m <= B+1) and with empty|B-1|empty|rest
+ *                       updates must equal the reference; afterwards the keyed pad and the
+ *                       sensitive fields of the hash context are zero.
  *   one-shot cases      hmac_X(), X_hmac_get_digest(), X_hmac_get_digest_str() for the same m.
  *   hmac_*_update case  (key lengths of the BFS set, see H_LEVEL) partition-confluence exploration
- *                       exactly as in C04 on the HMAC context: states n = 0..2B bytes absorbed,
+ *                       exactly as in C04 on the HMAC context: states n = 0..L bytes absorbed,
  *                       transitions update(next c bytes at alignment a), canonical context (live
  *                       bytes incl. k_opad[0..B)) must equal that of the single-update context, with
- *                       dead bytes 0x00 and 0xA5; final from n in {0,1,B-1,B,B+1,2B} under both poisons.
+ *                       dead bytes 0x00 and 0xA5; final from n in {0,1,B-1,B,B+1,2B} (<= L) under both.
  *
  * Reference: Python hmac table (expected_hmac.h) for MD5/SHA-x; RFC 2104 written out over the
  * reference Streebog (ref_streebog.c, anchored by the RFC 7836 vectors) for GOST.
  *
- * H_LEVEL  BFS key lengths                       L (states n = 0..L)            BFS alignments
- *   0      {0,B,3B+1}                            B+2                            {0,1,31}
- *   1      {0,1,B-1,B,B+1,2B,2B+1,3B,3B+1}       2B                             {0,1,31}
+ * H_LEVEL  BFS key lengths                       L (states n = 0..L)               BFS alignments
+ *   0      {0,B,3B+1}                            B+2                               {0,1,31}
+ *   1      {0,1,B-1,B,B+1,2B,2B+1,3B,3B+1}       2B                                {0,1,31}
  *   2      every k = 0..3B+1                     2B for the nine above, else B+2   {0,1,3,4,8,16,31,32,63} for the nine, else {0,1,31}
- * Both dead-byte poisons for the first two alignments (aligned + unaligned source), alternating after.
+ * Both dead-byte poisons for the first H_BOTH alignments (aligned + unaligned source), alternating after.
  */
 #define H_WITH_HMAC 1
 #include "hcommon.h"
@@ -107,7 +107,7 @@ make_h0(const halg_t *A, const char *var, size_t k) {
 /* final on W (consumed), compare with want, check wiping.  Returns 1 on failure. */
 static int
 do_final(const halg_t *A, void *W, const uint8_t *want, int with_size, const char *how) {
-	uint8_t *dg = (uint8_t *)malloc(A->hs);
+	uint8_t *dg = (uint8_t *)malloc(A->hs);	/* exact size */
 	size_t dsz = 0xdead, nw;
 	char hex[2 * 64 + 8];
 	int bad = 0;
@@ -135,221 +135,247 @@ do_final(const halg_t *A, void *W, const uint8_t *want, int with_size, const cha
 	return (bad);
 }
 
+/* incremental use for one key length: every message length, three ways of splitting */
+static int
+case_final(int ai, int v, size_t k) {
+	const halg_t *A = &halgs[ai];
+	void *H0 = make_h0(A, A->vname[v], k), *W, *base;
+	uint8_t want[64];
+	char how[128];
+	size_t ml[6];
+	int mi, bad = 0;
+
+	msg_lens(A, ml);
+	for (mi = 0; mi < 6; mi ++) {
+		size_t m = ml[mi], i;
+		const uint8_t *src = h_src(ref_hmsg, m, h_aligns_sub[(k + (size_t)mi) % H_NSUB], &base);
+
+		expected(ai, k, mi, want);
+		/* one update */
+		W = h_ctx_alloc(A->hctx_size);
+		memcpy(W, H0, A->hctx_size);
+		A->h_update(W, src, m);
+		h_transitions ++;
+		h_poison(A, W, 1, 0x00);
+		snprintf(how, sizeof(how), "mlen=%zu one update", m);
+		bad |= do_final(A, W, want, 1, how);
+		/* byte by byte (the lengths up to one block + 1; longer ones add nothing C04 does not cover) */
+		if (m <= A->B + 1) {
+			memcpy(W, H0, A->hctx_size);
+			for (i = 0; i < m; i ++) {
+				A->h_update(W, src + i, 1);
+				h_transitions ++;
+			}
+			h_poison(A, W, 1, 0xA5);
+			snprintf(how, sizeof(how), "mlen=%zu one-byte updates", m);
+			bad |= do_final(A, W, want, 0, how);
+		}
+		/* empty | B-1 | empty | rest */
+		memcpy(W, H0, A->hctx_size);
+		i = (m < A->B - 1) ? m : (A->B - 1);
+		A->h_update(W, src, 0);
+		A->h_update(W, src, i);
+		A->h_update(W, src + i, 0);
+		A->h_update(W, src + i, m - i);
+		h_transitions += 4;
+		snprintf(how, sizeof(how), "mlen=%zu updates 0|%zu|0|%zu", m, i, m - i);
+		bad |= do_final(A, W, want, 1, how);
+		free(W);
+		free(base);
+	}
+	free(H0);
+	return (bad);
+}
+
+/* partition confluence on hmac_*_update for one key length */
+static int
+case_bfs(int ai, int v, size_t k, const int *al, int nal, size_t L) {
+	const halg_t *A = &halgs[ai];
+	void *H0 = make_h0(A, A->vname[v], k), *base;
+	uint8_t *S[2], *canon, *W, want[64], cbuf[HCANON_MAX];
+	size_t *clen, n, c, ml[6];
+	char how[128];
+	int a, pz, mi, bad = 0;
+
+	msg_lens(A, ml);
+	S[0] = (uint8_t *)malloc((L + 1) * A->hctx_size);
+	S[1] = (uint8_t *)malloc((L + 1) * A->hctx_size);
+	canon = (uint8_t *)malloc((L + 1) * HCANON_MAX);
+	clen = (size_t *)malloc((L + 1) * sizeof(size_t));
+	W = (uint8_t *)h_ctx_alloc(A->hctx_size);
+	for (n = 0; n <= L; n ++) {
+		const uint8_t *src = h_src(ref_hmsg, n, 0, &base);
+
+		memcpy(W, H0, A->hctx_size);
+		if (n)
+			A->h_update(W, src, n);
+		free(base);
+		clen[n] = h_canon(A, W, 1, canon + n * HCANON_MAX);
+		h_state_seen(ai, canon + n * HCANON_MAX, clen[n], (uint64_t)k);
+		for (pz = 0; pz < 2; pz ++) {
+			h_poison(A, W, 1, h_poisons[pz]);
+			memcpy(S[pz] + n * A->hctx_size, W, A->hctx_size);
+		}
+	}
+	for (n = 0; n <= L; n ++) {
+		for (c = 0; c <= L - n; c ++) {
+			for (a = 0; a < nal; a ++) {
+				const uint8_t *src = h_src(ref_hmsg + n, c, al[a], &base);
+
+				for (pz = 0; pz < 2; pz ++) {
+					size_t len;
+
+					if (a >= H_BOTH && pz != (a & 1))
+						continue;
+					memcpy(W, S[pz] + n * A->hctx_size, A->hctx_size);
+					A->h_update(W, src, c);
+					h_transitions ++;
+					len = h_canon(A, W, 1, cbuf);
+					if (len != clen[n + c] ||
+					    0 != memcmp(cbuf, canon + (n + c) * HCANON_MAX, len)) {
+						vh_fail("confluence", "n=%zu c=%zu a=%d dead-bytes=0x%02x: context differs "
+						    "from the single-update context of %zu bytes", n, c, al[a],
+						    h_poisons[pz], (n + c));
+						bad = 1;
+					}
+				}
+				free(base);
+			}
+		}
+	}
+	for (mi = 0; mi < 6 && ml[mi] <= L; mi ++) {
+		expected(ai, k, mi, want);
+		for (pz = 0; pz < 2; pz ++) {
+			memcpy(W, S[pz] + ml[mi] * A->hctx_size, A->hctx_size);
+			snprintf(how, sizeof(how), "final from state n=%zu dead-bytes=0x%02x", ml[mi], h_poisons[pz]);
+			bad |= do_final(A, W, want, pz, how);
+		}
+	}
+	free(W);
+	free(clen);
+	free(canon);
+	free(S[1]);
+	free(S[0]);
+	free(H0);
+	return (bad);
+}
+
+/* which: 0 hmac_X(), 1 X_hmac_get_digest(), 2 X_hmac_get_digest_str() */
+static int
+case_oneshot(int ai, size_t k, int which) {
+	const halg_t *A = &halgs[ai];
+	void *kbase, *mbase;
+	const uint8_t *key = h_src(ref_key, k, h_aligns_sub[(k + 2) % H_NSUB], &kbase);
+	uint8_t want[64];
+	char hex[2 * 64 + 8], whex[2 * 64 + 8];
+	size_t ml[6];
+	int mi, bad = 0;
+
+	msg_lens(A, ml);
+	for (mi = 0; mi < 6; mi ++) {
+		size_t m = ml[mi], sz = 0xdead;
+		const uint8_t *src = h_src(ref_hmsg, m, h_aligns_sub[(k + (size_t)mi + 5) % H_NSUB], &mbase);
+		int with_size = ((k + (size_t)mi) & 1) ? 0 : 1;	/* the size out-parameter is optional */
+
+		expected(ai, k, mi, want);
+		if (2 != which) {
+			uint8_t *dg = (uint8_t *)malloc(A->hs);
+
+			memset(dg, 0xCC, A->hs);
+			if (0 == which)
+				A->h_oneshot(key, k, src, m, dg, with_size ? &sz : NULL);
+			else
+				A->h_get_digest(key, k, src, m, dg, with_size ? &sz : NULL);
+			if (0 != memcmp(dg, want, A->hs)) {
+				vh_hex(hex, sizeof(hex), dg, A->hs);
+				vh_fail("mac", "mlen=%zu got %s", m, hex);
+				bad = 1;
+			}
+			if (A->has_size_out && with_size && sz != A->hs) {
+				vh_fail("mac-size", "mlen=%zu reported %zu", m, sz);
+				bad = 1;
+			}
+			free(dg);
+		} else {
+			/* 2*hs characters + the terminating NUL the function writes */
+			char *s = (char *)malloc(2 * A->hs + 1);
+
+			memset(s, 0x7e, 2 * A->hs + 1);
+			vh_hex(whex, sizeof(whex), want, A->hs);
+			A->h_get_digest_str((const char *)key, k, (const char *)src, m, s, with_size ? &sz : NULL);
+			if (0 != memcmp(s, whex, 2 * A->hs)) {
+				vh_fail("hex-mac", "mlen=%zu got %.*s", m, (int)(2 * A->hs), s);
+				bad = 1;
+			}
+			if (A->has_size_out && with_size && sz != 2 * A->hs) {
+				vh_fail("mac-size", "mlen=%zu reported %zu", m, sz);
+				bad = 1;
+			}
+			free(s);
+		}
+		free(mbase);
+	}
+	free(kbase);
+	return (bad);
+}
+
 int
 main(int argc, char **argv) {
-	int ai, v, mi, pz, a, nal;
+	int ai, v, nal, bad, which;
 	const int *al;
-	size_t k, n, c, L, ml[6];
-	uint8_t want[64], cbuf[HCANON_MAX];
-	char how[128], hex[2 * 64 + 8];
+	size_t k, L;
 
 	vh_init(argc, argv);
 	h_common_init();
+	h_install_handlers();
 
 	for (ai = 0; ai < HALG_COUNT; ai ++) {
 		const halg_t *A = &halgs[ai];
 		size_t kmax = 3 * A->B + 1;
 		char hpfx[64];
+		const char *t_one[3];
 
 		snprintf(hpfx, sizeof(hpfx), "hmac_%s", A->pfx);
-		msg_lens(A, ml);
-
 		for (v = 0; v < A->nvar; v ++) {
 			const char *t_update = h_name(hpfx, "_update", A->sfx, A->vname[v]);
 			const char *t_final = h_name(hpfx, "_final", A->sfx, A->vname[v]);
 
 			for (k = 0; k <= kmax; k ++) {
-				/* ---- incremental use, every key length */
 				if (vh_begin(t_final)) {
-					void *H0 = make_h0(A, A->vname[v], k), *W, *base;
-					int bad = 0;
-
 					vh_desc("klen=%zu", k);
-					for (mi = 0; mi < 6; mi ++) {
-						size_t m = ml[mi], i;
-						const uint8_t *src = h_src(ref_hmsg, m, h_aligns_sub[(k + (size_t)mi) % H_NSUB], &base);
-
-						expected(ai, k, mi, want);
-						/* one update */
-						W = h_ctx_alloc(A->hctx_size);
-						memcpy(W, H0, A->hctx_size);
-						A->h_update(W, src, m);
-						h_transitions ++;
-						h_poison(A, W, 1, 0x00);
-						snprintf(how, sizeof(how), "mlen=%zu one update", m);
-						bad |= do_final(A, W, want, 1, how);
-						/* byte by byte (the lengths around one block; longer ones add nothing C04 does not cover) */
-						if (m <= A->B + 1) {
-							memcpy(W, H0, A->hctx_size);
-							for (i = 0; i < m; i ++) {
-								A->h_update(W, src + i, 1);
-								h_transitions ++;
-							}
-							h_poison(A, W, 1, 0xA5);
-							snprintf(how, sizeof(how), "mlen=%zu one-byte updates", m);
-							bad |= do_final(A, W, want, 0, how);
-						}
-						/* empty | B-1 | empty | rest */
-						memcpy(W, H0, A->hctx_size);
-						i = (m < A->B - 1) ? m : (A->B - 1);
-						A->h_update(W, src, 0);
-						A->h_update(W, src, i);
-						A->h_update(W, src + i, 0);
-						A->h_update(W, src + i, m - i);
-						h_transitions += 4;
-						snprintf(how, sizeof(how), "mlen=%zu updates 0|%zu|0|%zu", m, i, m - i);
-						bad |= do_final(A, W, want, 1, how);
-						free(W);
-						free(base);
-					}
-					free(H0);
+					vh_publish_desc();
+					H_GUARDED(bad, case_final(ai, v, k));
 					if (!bad)
 						vh_nontrivial();
 				}
-
-				/* ---- partition confluence on hmac_*_update */
 				nal = bfs_params(A, k, &al, &L);
 				if (0 != nal && vh_begin(t_update)) {
-					void *H0 = make_h0(A, A->vname[v], k), *W, *base;
-					uint8_t *S[2], *canon;
-					size_t *clen;
-					int bad = 0;
-
 					vh_desc("klen=%zu L=%zu alignments=%d", k, L, nal);
 					vh_publish_desc();
-					S[0] = (uint8_t *)malloc((L + 1) * A->hctx_size);
-					S[1] = (uint8_t *)malloc((L + 1) * A->hctx_size);
-					canon = (uint8_t *)malloc((L + 1) * HCANON_MAX);
-					clen = (size_t *)malloc((L + 1) * sizeof(size_t));
-					W = h_ctx_alloc(A->hctx_size);
-					for (n = 0; n <= L; n ++) {
-						const uint8_t *src = h_src(ref_hmsg, n, 0, &base);
-
-						memcpy(W, H0, A->hctx_size);
-						if (n)
-							A->h_update(W, src, n);
-						free(base);
-						clen[n] = h_canon(A, W, 1, canon + n * HCANON_MAX);
-						h_state_seen(ai, canon + n * HCANON_MAX, clen[n], (uint64_t)k);
-						for (pz = 0; pz < 2; pz ++) {
-							h_poison(A, W, 1, h_poisons[pz]);
-							memcpy(S[pz] + n * A->hctx_size, W, A->hctx_size);
-						}
-					}
-					for (n = 0; n <= L; n ++) {
-						for (c = 0; c <= L - n; c ++) {
-							for (a = 0; a < nal; a ++) {
-								const uint8_t *src = h_src(ref_hmsg + n, c, al[a], &base);
-
-								for (pz = 0; pz < 2; pz ++) {
-									size_t len;
-
-									if (a >= H_BOTH && pz != (a & 1))
-										continue;
-									memcpy(W, S[pz] + n * A->hctx_size, A->hctx_size);
-									A->h_update(W, src, c);
-									h_transitions ++;
-									len = h_canon(A, W, 1, cbuf);
-									if (len != clen[n + c] ||
-									    0 != memcmp(cbuf, canon + (n + c) * HCANON_MAX, len)) {
-										vh_fail("confluence", "n=%zu c=%zu a=%d dead-bytes=0x%02x: context differs "
-										    "from the single-update context of %zu bytes", n, c, al[a],
-										    h_poisons[pz], (n + c));
-										bad = 1;
-									}
-								}
-								free(base);
-							}
-						}
-					}
-					for (mi = 0; mi < 6 && ml[mi] <= L; mi ++) {
-						expected(ai, k, mi, want);
-						for (pz = 0; pz < 2; pz ++) {
-							memcpy(W, S[pz] + ml[mi] * A->hctx_size, A->hctx_size);
-							snprintf(how, sizeof(how), "final from state n=%zu dead-bytes=0x%02x", ml[mi], h_poisons[pz]);
-							bad |= do_final(A, W, want, pz, how);
-						}
-					}
-					free(W);
-					free(clen);
-					free(canon);
-					free(S[1]);
-					free(S[0]);
-					free(H0);
+					H_GUARDED(bad, case_bfs(ai, v, k, al, nal, L));
 					if (!bad)
 						vh_nontrivial();
 				}
 			}
+			h_flush_model(1);
 		}
 
-		/* ---- one-shot entry points (transform = whatever init selects on this CPU) */
-		{
-			const char *t_one = h_name(hpfx, "", A->sfx, NULL);
-			const char *t_gd = h_name(A->pfx, "_hmac_get_digest", A->sfx, NULL);
-			const char *t_gds = h_name(A->pfx, "_hmac_get_digest_str", A->sfx, NULL);
-			int which;
-
-			for (k = 0; k <= kmax; k ++) {
-				for (which = 0; which < 3; which ++) {
-					void *kbase, *mbase;
-					const uint8_t *key;
-					int bad = 0;
-
-					if (!vh_begin((0 == which) ? t_one : ((1 == which) ? t_gd : t_gds)))
-						continue;
-					vh_desc("klen=%zu", k);
-					key = h_src(ref_key, k, h_aligns_sub[(k + 2) % H_NSUB], &kbase);
-					for (mi = 0; mi < 6; mi ++) {
-						size_t m = ml[mi], sz = 0xdead;
-						const uint8_t *src = h_src(ref_hmsg, m, h_aligns_sub[(k + (size_t)mi + 5) % H_NSUB], &mbase);
-						int with_size = ((k + (size_t)mi) & 1) ? 0 : 1;
-
-						expected(ai, k, mi, want);
-						if (2 != which) {
-							uint8_t *dg = (uint8_t *)malloc(A->hs);
-
-							memset(dg, 0xCC, A->hs);
-							if (0 == which)
-								A->h_oneshot(key, k, src, m, dg, with_size ? &sz : NULL);
-							else
-								A->h_get_digest(key, k, src, m, dg, with_size ? &sz : NULL);
-							if (0 != memcmp(dg, want, A->hs)) {
-								vh_hex(hex, sizeof(hex), dg, A->hs);
-								vh_fail("mac", "mlen=%zu got %s", m, hex);
-								bad = 1;
-							}
-							if (A->has_size_out && with_size && sz != A->hs) {
-								vh_fail("mac-size", "mlen=%zu reported %zu", m, sz);
-								bad = 1;
-							}
-							free(dg);
-						} else {
-							char whex[2 * 64 + 8];
-							/* 2*hs characters + the terminating NUL the function writes */
-							char *s = (char *)malloc(2 * A->hs + 1);
-
-							memset(s, 0x7e, 2 * A->hs + 1);
-							vh_hex(whex, sizeof(whex), want, A->hs);
-							A->h_get_digest_str((const char *)key, k, (const char *)src, m, s, with_size ? &sz : NULL);
-							if (0 != memcmp(s, whex, 2 * A->hs)) {
-								vh_fail("hex-mac", "mlen=%zu got %.*s", m, (int)(2 * A->hs), s);
-								bad = 1;
-							}
-							if (A->has_size_out && with_size && sz != 2 * A->hs) {
-								vh_fail("mac-size", "mlen=%zu reported %zu", m, sz);
-								bad = 1;
-							}
-							free(s);
-						}
-						free(mbase);
-					}
-					free(kbase);
-					if (!bad)
-						vh_nontrivial();
-				}
+		/* one-shot entry points (transform = whatever init selects on this CPU) */
+		t_one[0] = h_name(hpfx, "", A->sfx, NULL);
+		t_one[1] = h_name(A->pfx, "_hmac_get_digest", A->sfx, NULL);
+		t_one[2] = h_name(A->pfx, "_hmac_get_digest_str", A->sfx, NULL);
+		for (k = 0; k <= kmax; k ++) {
+			for (which = 0; which < 3; which ++) {
+				if (!vh_begin(t_one[which]))
+					continue;
+				vh_desc("klen=%zu", k);
+				vh_publish_desc();
+				H_GUARDED(bad, case_oneshot(ai, k, which));
+				if (!bad)
+					vh_nontrivial();
 			}
 		}
 	}
-	h_finish_model(1);
+	h_flush_model(1);
 	return (vh_finish());
 }
